@@ -16,7 +16,7 @@ func init() {
 
 func checkC13(c *Ctx) {
 	r, t := c.R, c.T
-	r.Explanation = "Decides on the SSA of Script.RefRun, funcs.Use, funcs.Exit, GetContext/InitCtx and RunStmts: (1) FRESH-TASK: RefRun runs the callee on a task obtained from GetContext and initialised by InitCtx(newtask, caller.input, callee script, caller.signal); the only things read from the caller's task are its input and its signal, nothing is written to it, and the callee's statements are run on the new task; GetContext gives the task a brand-new root scope with no link to another scope chain; (2) USE: Use runs exactly the script bound in PrivateData, appends its own call site (task name, NamePos) to a callee error and returns nil otherwise; the error returned by a builtin aborts the caller (RunCallExpr returns it, RunStmts latches procExit and returns it); (2b) USE-BOUND: every use() call site accepted by the checker is recorded for the linker (UseChecking → SetCallRef appends on every path → Script.Check publishes the list), because Use silently does nothing for an unbound call site; (3) EXIT-OWN: Exit sets the exit latch of the task it was called with and of no other; the latch is set true only by SetExit, by RunStmts' error arm and by the signal poll, and cleared only by the init functions / PutContext; RefRun never reads the callee's latch, so an exit() inside a use()d script ends only that script; (4) STOP-AFTER-EXIT: RunStmts tests StmtRetrun (which includes the latch) after every statement and returns. Not decided: effect order across whole call trees as behaviour."
+	r.Explanation = "Decides on the SSA of Script.RefRun, funcs.Use, funcs.Exit, GetContext/InitCtx and RunStmts: (1) FRESH-TASK: RefRun runs the callee on a task obtained from GetContext and initialised by InitCtx(newtask, caller.input, callee script, caller.signal); the only things read from the caller's task are its input and its signal, nothing is written to it, and the callee's statements are run on the new task; GetContext gives the task a brand-new root scope with no link to another scope chain; (2) USE: Use runs exactly the script bound in PrivateData, appends its own call site (task name, NamePos) to a callee error and returns nil otherwise; the error returned by a builtin aborts the caller (RunCallExpr returns it, RunStmts latches procExit and returns it); (2b) USE-BOUND: every use() call site accepted by the checker is recorded for the linker (UseChecking → SetCallRef appends on every path → Script.Check publishes the list), because Use silently does nothing for an unbound call site; (3) EXIT-OWN: Exit sets the exit latch of the task it was called with and of no other; the latch is set true only by SetExit, by RunStmts' error arm and by the signal poll, and cleared only by the init functions / PutContext; RefRun never reads the callee's latch, so an exit() inside a use()d script ends only that script; (4) STOP-AFTER-EXIT: RunStmts tests StmtRetrun (which includes the latch) after every statement and returns. Not decided: effect order across whole call trees as behaviour. (5) ERR-PROP: in the v1 run scope no test of a callee's *PlError leaves the function with a nil error on every path of its non-nil edge — a failing statement cannot turn into a successful one."
 	refRun := t.Method(pRT, "Script", "RefRun")
 	getCtx := t.Func(pRT, "GetContext")
 	initCtx := t.Func(pRT, "InitCtx")
